@@ -7,6 +7,9 @@ pub(crate) struct URLEncodedSerializer {
 
     /// To forbid nesting maps
     init: bool,
+
+    /// whether the next element is the first one of its sequence
+    first_element: bool,
 }
 impl URLEncodedSerializer {
     #[inline]
@@ -14,6 +17,7 @@ impl URLEncodedSerializer {
         Self {
             output: String::new(),
             init:   true,
+            first_element: true,
         }
     }
 
@@ -75,7 +79,8 @@ const _: () = {
 
         fn serialize_element<T: ?Sized>(&mut self, value: &T) -> Result<(), Self::Error>
         where T: serde::Serialize {
-            if !self.output.ends_with('=') {
+            /* not by `output.ends_with('=')`: the first element can be empty */
+            if !std::mem::replace(&mut self.first_element, false) {
                 self.output.push(',');
             }
             value.serialize(&mut **self)
@@ -90,7 +95,8 @@ const _: () = {
 
         fn serialize_element<T: ?Sized>(&mut self, value: &T) -> Result<(), Self::Error>
         where T: serde::Serialize {
-            if !self.output.ends_with('=') {
+            /* not by `output.ends_with('=')`: the first element can be empty */
+            if !std::mem::replace(&mut self.first_element, false) {
                 self.output.push(',');
             }
             value.serialize(&mut **self)
@@ -105,7 +111,8 @@ const _: () = {
 
         fn serialize_field<T: ?Sized>(&mut self, value: &T) -> Result<(), Self::Error>
         where T: serde::Serialize {
-            if !self.output.ends_with('=') {
+            /* not by `output.ends_with('=')`: the first element can be empty */
+            if !std::mem::replace(&mut self.first_element, false) {
                 self.output.push(',');
             }
             value.serialize(&mut **self)
@@ -120,7 +127,8 @@ const _: () = {
 
         fn serialize_field<T: ?Sized>(&mut self, value: &T) -> Result<(), Self::Error>
         where T: serde::Serialize {
-            if !self.output.ends_with('=') {
+            /* not by `output.ends_with('=')`: the first element can be empty */
+            if !std::mem::replace(&mut self.first_element, false) {
                 self.output.push(',');
             }
             value.serialize(&mut **self)
@@ -256,6 +264,7 @@ impl serde::Serializer for &mut URLEncodedSerializer {
     }
 
     fn serialize_seq(self, _len: Option<usize>) -> Result<Self::SerializeSeq, Self::Error> {
+        self.first_element = true;
         Ok(self)
     }
     fn serialize_tuple(self, len: usize) -> Result<Self::SerializeTuple, Self::Error> {
